@@ -13,7 +13,7 @@ K = lambda name, file, fn: dict(name=name, target=("oxidize-pdf-core/src/" + fil
 
 PROPS = {
     "C01": dict(
-        verus=["tokenizer", "runlength", "gss", "xrefstream", "glyf", "guards", "predictor", "pngrows", "flatten", "bounded", "asciihex", "ascii85", "rotate", "pngunfilter", "cmaprange", "readlimited"],
+        verus=["tokenizer", "runlength", "gss", "xrefstream", "glyf", "guards", "predictor", "pngrows", "flatten", "bounded", "asciihex", "ascii85", "rotate", "pngunfilter", "cmaprange", "readlimited", "charstring"],
         standins=["a85hex", "hostile-inputs"],
         kani=[K("c01_hex_digit_value", "parser/filters.rs", "hex_digit_value"),
               K("c01_calculate_offset_9_bytes_no_panic", "text/cmap.rs", "calculate_offset")],
@@ -32,9 +32,9 @@ PROPS = {
         not_decided="integers/reals (number text), arrays/dictionaries nesting, object streams, names (C30), the ISO-reader lemma for EOL handling",
     ),
     "C12": dict(
-        verus=["glyf"],
+        verus=["glyf", "charstring"],
         standins=["fontsubset"],
-        not_decided="proved per function: component closure, glyph-index remapping, instruction stripping (result is the same glyph description with instructionLength 0 / WE_HAVE_INSTRUCTIONS cleared), glyf/loca assembly (every loca entry decodes to the real, even start offset of its glyph). Not proved: that these compose to 'same flattened outline' (needs a glyf renderer as spec: covered only by the bounded stand-in fontsubset, synthetic fonts with an independent glyf reader), hmtx/hhea/maxp/head rebuild and the table directory (stand-in only), cmap glyph selection; CFF subsetting and the charstring desubroutiniser have neither a contract nor a stand-in",
+        not_decided="proved per function: component closure, glyph-index remapping, instruction stripping (result is the same glyph description with instructionLength 0 / WE_HAVE_INSTRUCTIONS cleared), glyf/loca assembly (every loca entry decodes to the real, even start offset of its glyph). Not proved: that these compose to 'same flattened outline' (needs a glyf renderer as spec: covered only by the bounded stand-in fontsubset, synthetic fonts with an independent glyf reader), hmtx/hhea/maxp/head rebuild and the table directory (stand-in only), cmap glyph selection. CFF: the charstring desubroutiniser is under contract (unit charstring: Type 2 number decoding and subroutine bias against Technical Note #5177, operand-stack bookkeeping invariant, hint-mask width = ceil(stems declared incl. the implicit vstemhm / 8) and fixed after the first mask, every non-call byte copied verbatim, termination through the depth bound); NOT that the inlined subroutine bodies are the right ones end to end (subr_item / INDEX lookup is a stub), nor the CFF table rebuild (Top DICT, charset, FDSelect, offsets) of cff_subsetter.rs, which has neither a contract nor a stand-in",
     ),
     "C04": dict(
         verus=["prevmerge"],
